@@ -17,9 +17,12 @@ extern void *(*hx_rank_mains[])(void *);
 
 enum { OP_TASK, OP_FLUSH, OP_FLUSHALL, OP_WAIT, OP_N };
 static const char *const opnames[] = {"task", "flush", "flushall", "wait"};
-enum { PR_READERS_OVERLAP, PR_REMOTE_TASK, PR_SAME_TILE_TWICE, PR_NESTED_INSERT, PR_WINDOW_SMALL, PR_MULTIRANK, PR_WRITER_AFTER_READERS, PR_N };
+enum { PR_READERS_OVERLAP, PR_REMOTE_TASK, PR_SAME_TILE_TWICE, PR_NESTED_INSERT, PR_WINDOW_SMALL, PR_MULTIRANK, PR_WRITER_AFTER_READERS,
+       PR_NESTED_WINDOW_STOP, PR_AFTER_WAIT_CHECKED, PR_SHORT_LIMIT_0, PR_COPY_STALL, PR_N };
 static const char *const probe_names[] = {"two_readers_overlapped", "task_ran_on_nonzero_rank", "task_uses_tile_twice", "task_inserted_from_task",
-                                          "window_le_2", "multi_rank_run", "writer_ran_after_2plus_readers"};
+                                          "window_le_2", "multi_rank_run", "writer_ran_after_2plus_readers",
+                                          "nested_insertion_hit_window_stop", "flushed_owner_copy_checked_after_wait", "multi_rank_comm_short_limit_0",
+                                          "multi_rank_copy_stall"};
 
 static const char *const SCHEDS[] = {"lfq", "ap", "gd", "ip", "lhq", "ll", "llp", "ltq", "pbq", "rnd", "spq"};
 #define NSCHED 11
@@ -87,17 +90,73 @@ static int readers_since_write[16][DTD_MAX_TILES];
 static unsigned char INFL[16][DTD_MAX_TILES][DTD_MAX_TASKS];   /* 0 not running, 1 reading, 2 writing */
 static int insert_done[DTD_MAX_TASKS];     /* insertion (by rank that runs it) has returned */
 
-static uint64_t INS_BEGIN[16][DTD_MAX_TASKS];
+static uint64_t INS_BEGIN[16][DTD_MAX_TASKS], INS_END[16][DTD_MAX_TASKS];   /* per rank: insertion of task / flush [plan index] began, returned */
+static uintptr_t TASK_ADDR[DTD_MAX_TASKS];          /* address of the runtime's task object when the body of [plan index] ran */
 static int WAR_R = -1, WAR_W = -1, WAR_T = -1;     /* (reader, writer, tile) of a write-after-read failure, for the shape tag */
 static int c3(void) { return PROP == 3; }
 static int c4(void) { return PROP == 4; }
+static int exp_rank_of(int i) { return SH.nranks == 1 ? 0 : REF[i].exp_rank; }
+static int plan_has_nested(void) { for (int i = 0; i < SH.ntasks; i++) if (!SH.tasks[i].is_flush && SH.tasks[i].inserter >= 0) return 1; return 0; }
+
+/* C17 (and the final-value half of C03), mid-run: parsec_taskpool_wait has just returned on `rank`, which owns tile k
+ * (contents at `data`); plan entries [0, upto) were inserted before that wait.  If the last flush of k (flush or
+ * flush_all) among them comes after the last writer of k among them, the flush "and the corresponding wait" are
+ * over: the owner's copy must hold what that writer was OBSERVED to produce (its inputs are C03's business; the
+ * initial contents if nobody wrote).  Plans with tasks inserting tasks are left to the end-of-run check. */
+static void after_wait_check(int rank, int upto, int k, const int64_t *data)
+{
+    if (!(c3() || PROP == 17) || RES->vclass || !data || k < 0 || k >= SH.ntiles || plan_has_nested()) return;
+    if (upto > SH.ntasks) upto = SH.ntasks;
+    int lf = -1, lw = -1, lwp = -1, nwait = 1;
+    for (int i = 0; i < upto; i++) {
+        dtd_task_desc_t *d = &SH.tasks[i];
+        if (d->is_flush == 3) { nwait++; continue; }
+        if (d->is_flush == 2 || (d->is_flush == 1 && d->tile[0] == k)) { lf = i; continue; }
+        if (d->is_flush) continue;
+        for (int p = 0; p < d->nparams; p++) if (d->tile[p] == k && writes(d->mode[p])) { lw = i; lwp = p; }
+    }
+    if (lf < 0 || lf < lw) return;
+    if (lw >= 0 && !OBS[lw].end) return;          /* the writer never ran: task-lost / a hang, reported elsewhere */
+    sim_probe(PR_AFTER_WAIT_CHECKED);
+    int64_t want = lw >= 0 ? OBS_out[lw][lwp] : 1000 * (int64_t)(k + 1);
+    for (int j = 0; j < SH.nelems; j++) if (data[j] != want + j) {
+        hx_fail(RES, "flush-wrong-value", "tile %d element %d on its owner rank %d is %lld after wait #%d (parsec_taskpool_wait just returned; the flush at plan index %d precedes it); last writer in insertion order (task %d) produced %lld",
+                k, j, rank, (long long)data[j], nwait, lf, lw, (long long)(want + j));
+        break;
+    }
+}
+
+/* per rank: task objects that entered prepare_input since they last started executing (PINS events 11 / 12).  A count
+ * that keeps growing while the task never executes = the task is being sent back by the write-after-read gate. */
+#define PREP_SLOTS 512
+static struct { uintptr_t addr; int rank; unsigned count; } PREP[PREP_SLOTS];
+static void prep_note(int rank, uintptr_t addr, int executing)
+{
+    int free_slot = -1;
+    for (int i = 0; i < PREP_SLOTS; i++) {
+        if (PREP[i].addr == addr && PREP[i].rank == rank && PREP[i].count) { if (executing) PREP[i].count = 0; else PREP[i].count++; return; }
+        if (!PREP[i].count && free_slot < 0) free_slot = i;
+    }
+    if (!executing && free_slot >= 0) { PREP[free_slot].addr = addr; PREP[free_slot].rank = rank; PREP[free_slot].count = 1; }
+}
+static int spinning_on_again(int rank)      /* tasks of that rank that entered prepare_input >= 4 times and have not executed */
+{
+    int n = 0;
+    for (int i = 0; i < PREP_SLOTS; i++) if (PREP[i].rank == rank && PREP[i].count >= 4) n++;
+    return n;
+}
 
 void dtdh_event(int rank, int kind, long a, long b)
 {
-    (void)b;
+    if (kind == 11 || kind == 12) { prep_note(rank, (uintptr_t)b, kind == 12); return; }
     sim_hash_event(((uint64_t)rank << 56) ^ ((uint64_t)kind << 48) ^ (uint64_t)a);
     if (getenv("VERIF_MPI_TRACE")) fprintf(stderr, "[dtd t=%llu] rank %d event %d task %ld\n", (unsigned long long)sim_now(), rank, kind, a);
-    if (kind == 1 && rank >= 0 && rank < 16 && a >= 0 && a < DTD_MAX_TASKS) INS_BEGIN[rank][a] = sim_stamp();
+    int idx_ok = rank >= 0 && rank < 16 && a >= 0 && a < DTD_MAX_TASKS;
+    if ((kind == 1 || kind == 8) && idx_ok) INS_BEGIN[rank][a] = sim_stamp();
+    if ((kind == 2 || kind == 10) && idx_ok) INS_END[rank][a] = sim_stamp();
+    if (kind == 6 && idx_ok) TASK_ADDR[a] = (uintptr_t)b;
+    if (kind == 7) after_wait_check(rank, (int)(a >> 8), (int)(a & 0xff), (const int64_t *)(intptr_t)b);
+    if (kind == 9) sim_probe(PR_NESTED_WINDOW_STOP);
     if (kind == 99) hx_fail(RES, "init-failed", "parsec_init returned NULL on rank %d", rank);
 }
 
@@ -269,8 +328,11 @@ static void plan_to_shared(const hx_plan_t *p)
      *    a wait op becomes flush_all + wait when nranks > 1
      *  - a mid-program flush_all is followed by a wait; the program always ends with flush_all (+ the
      *    driver's final wait)
-     *  - a nested task may only use tiles that no other insertion uses: otherwise "insertion order"
+     *  - a nested task may only use tiles that no other insertion uses, except nested tasks of the SAME
+     *    inserter (one body inserts them one after the other, in plan order): otherwise "insertion order"
      *    is not defined
+     *  - a flush_all is preceded by a wait when tasks inserted since the last wait insert tasks themselves:
+     *    otherwise the nested insertion could come after the flush of its tile
      *  - distributed runs need an affinity on every task (placement "given by affinity") */
     {
         static dtd_task_desc_t out[DTD_MAX_TASKS];
@@ -278,12 +340,15 @@ static void plan_to_shared(const hx_plan_t *p)
         int flushed[DTD_MAX_TILES] = {0};
         int m = 0;
 #define EMIT_SPECIAL(kind) do { if (m < DTD_MAX_TASKS - 2) { memset(&out[m], 0, sizeof(out[m])); out[m].id = m; out[m].inserter = -1; out[m].affinity = -1; out[m].is_flush = (kind); m++; } } while (0)
-        for (int i = 0; i < n && m < DTD_MAX_TASKS - 4; i++) {
+#define NESTED_SINCE_WAIT(res) do { (res) = 0; for (int z_ = m - 1; z_ >= 0 && out[z_].is_flush != 3; z_--) if (!out[z_].is_flush && out[z_].inserter >= 0) (res) = 1; } while (0)
+        for (int i = 0; i < n && m < DTD_MAX_TASKS - 5; i++) {
             dtd_task_desc_t *d = &SH.tasks[i];
             remap[i] = -1;
             if (d->is_flush == 3 || d->is_flush == 2) {
                 if (m && out[m - 1].is_flush == 3) continue;                 /* nothing happened since the last wait */
-                if (d->is_flush == 2 || SH.nranks > 1) { if (!(m && out[m - 1].is_flush == 2)) EMIT_SPECIAL(2); }
+                if (d->is_flush == 2 || SH.nranks > 1) {
+                    if (!(m && out[m - 1].is_flush == 2)) { int ns; NESTED_SINCE_WAIT(ns); if (ns) EMIT_SPECIAL(3); EMIT_SPECIAL(2); }
+                }
                 EMIT_SPECIAL(3);
                 memset(flushed, 0, sizeof(flushed));
                 continue;
@@ -304,7 +369,7 @@ static void plan_to_shared(const hx_plan_t *p)
         }
         /* a trailing wait is redundant with the driver's final wait */
         while (m && out[m - 1].is_flush == 3) m--;
-        if (!(m && out[m - 1].is_flush == 2)) EMIT_SPECIAL(2);
+        if (!(m && out[m - 1].is_flush == 2)) { int ns; NESTED_SINCE_WAIT(ns); if (ns) EMIT_SPECIAL(3); EMIT_SPECIAL(2); }
         memcpy(SH.tasks, out, sizeof(out[0]) * (size_t)m);
         n = m;
     }
@@ -315,6 +380,7 @@ static void plan_to_shared(const hx_plan_t *p)
         int ok = 1;
         for (int j = 0; j < n && ok; j++) {
             if (j == i || SH.tasks[j].is_flush == 2 || SH.tasks[j].is_flush == 3) continue;
+            if (!SH.tasks[j].is_flush && SH.tasks[j].inserter == d->inserter) continue;   /* same body inserts both, in plan order */
             for (int a = 0; a < d->nparams && ok; a++) {
                 if (SH.tasks[j].is_flush == 1) { if (SH.tasks[j].tile[0] == d->tile[a]) ok = 0; continue; }
                 for (int b = 0; b < SH.tasks[j].nparams; b++) if (SH.tasks[j].tile[b] == d->tile[a]) ok = 0;
@@ -346,12 +412,19 @@ static void gen(hx_plan_t *p, hx_rng_t *r)
     hx_set_knob(p, "nthreads", hx_chance(r, 70) ? hx_range(r, 1, 4) : hx_range(r, 5, 8));
     int nt = (int)hx_range(r, 2, 6);
     hx_set_knob(p, "ntiles", nt);
-    hx_set_knob(p, "nelems", hx_range(r, 1, 4));
+    hx_set_knob(p, "nelems", hx_chance(r, 80) ? hx_range(r, 1, 4) : hx_range(r, 5, DTD_MAX_ELEMS));
     hx_set_knob(p, "sched", hx_below(r, NSCHED));
+    /* tasks inserting tasks: single rank only; the nested tasks get 1-2 tiles of their own (the highest indices:
+     * plan_to_shared drops a nested task whose tiles anybody else uses), and window x threshold stay small in most
+     * of these plans so that nested insertions fall on window stops */
+    int nested_ok = P == 1 && hx_chance(r, 40);
+    int nres = !nested_ok ? 0 : nt >= 4 && hx_chance(r, 50) ? 2 : 1;
+    int ntm = nt - nres;                /* main insertions use tiles [0, ntm), nested ones [ntm, nt) */
+    int small = nested_ok && hx_chance(r, 70);
     static const int wins[] = {0, 0, 1, 2, 8};
-    hx_set_knob(p, "window", wins[hx_below(r, 5)]);
+    hx_set_knob(p, "window", small ? hx_range(r, 1, 2) : wins[hx_below(r, 5)]);
     static const int thr[] = {0, 0, 1, 2, 4};
-    hx_set_knob(p, "threshold", thr[hx_below(r, 5)]);
+    hx_set_knob(p, "threshold", small ? hx_range(r, 1, 2) : thr[hx_below(r, 5)]);
     hx_set_knob(p, "net_lat", hx_chance(r, 50) ? 1000 : hx_range(r, 100, 200000));
     hx_set_knob(p, "net_jit", hx_chance(r, 30) ? 0 : hx_range(r, 100, 400000));
     hx_set_knob(p, "net_heavy", hx_chance(r, 30) ? hx_range(r, 1, 20) : 0);
@@ -361,34 +434,50 @@ static void gen(hx_plan_t *p, hx_rng_t *r)
     hx_set_knob(p, "net_lag", hx_chance(r, 40) ? hx_range(r, 5, 40) : 0);
     hx_set_knob(p, "net_late", hx_chance(r, 30) ? hx_range(r, 5, 60) : 0);
     hx_set_knob(p, "partial_flush", hx_chance(r, 50));
+    /* PaRSEC's own short-message limit (default 1 KB: a tile always travels inside the activation message): 0 sends
+     * every tile through the rendezvous (GET) path */
+    hx_set_knob(p, "comm_short", P > 1 && hx_chance(r, 40) ? 0 : -1);
+    /* a slow local copy in the communication engine (dtd_driver.c: stalled_reshape), simulated ns */
+    hx_set_knob(p, "copy_stall", P > 1 && hx_chance(r, 40) ? hx_range(r, 2000, 3000000) : 0);
     int n = (int)hx_range(r, 3, 28);
-    int nested_ok = P == 1 && hx_chance(r, 30);
     int allow_rep = hx_chance(r, 10);   /* one tile in several parameters of a task: rare, own finding class */
+    int nmain = 0;                      /* main insertions so far */
+    int res_owner[2] = {-1, -1};        /* which main insertion's nested tasks use reserved tile ntm + x */
     for (int i = 0; i < n; i++) {
         int np = hx_chance(r, 55) ? 1 : hx_chance(r, 60) ? 2 : (int)hx_range(r, 3, 4);
         long a = 0;
         int used[DTD_MAX_PARAMS];
-        if (!allow_rep && np > nt) np = nt;
+        int back = nested_ok && nmain > 0 && hx_chance(r, 30) ? (int)hx_range(r, 1, 3) : 0;
+        int lo = 0, cnt = ntm;          /* this task draws its tiles from [lo, lo + cnt) */
+        if (back) {
+            if (back > nmain) back = nmain;
+            int ins = nmain - back, x0 = -1, x1 = -1;
+            for (int x = 0; x < nres; x++) if (res_owner[x] < 0 || res_owner[x] == ins) { if (x0 < 0) x0 = x; x1 = x; }
+            if (x0 < 0) back = 0;       /* every reserved tile belongs to another inserter: a main insertion then */
+            else { lo = ntm + x0; cnt = x1 - x0 + 1; }      /* nres <= 2: [x0, x1] holds candidates only */
+        }
+        if (!allow_rep && np > cnt) np = cnt;
         for (int k = 0; k < np; k++) {
-            int tile = (int)hx_below(r, nt);
+            int tile = lo + (int)hx_below(r, cnt);
             if (!allow_rep) {
-                for (;;) { int dup = 0; for (int q = 0; q < k; q++) if (used[q] == tile) dup = 1; if (!dup) break; tile = (tile + 1) % nt; }
+                for (;;) { int dup = 0; for (int q = 0; q < k; q++) if (used[q] == tile) dup = 1; if (!dup) break; tile = lo + (tile - lo + 1) % cnt; }
             }
             used[k] = tile;
+            if (back) res_owner[tile - ntm] = nmain - back;
             int q = (int)hx_below(r, 100);
             int mode = q < 45 ? M_IN : q < 60 ? M_OUT : M_INOUT;
             a |= (long)((tile & 0x1f) | (mode << 5)) << (8 * k);
         }
+        if (!back) nmain++;
         int aff = hx_chance(r, 80) ? 1 + (int)hx_below(r, np) : 0;
-        int back = nested_ok && hx_chance(r, 15) ? (int)hx_range(r, 1, 3) : 0;
         long b = np | (aff << 4) | (back << 8);
         long c = (hx_chance(r, 60) ? hx_range(r, 0, 3000) : hx_range(r, 3000, 200000)) | (hx_below(r, 4) << 20);
         hx_add_op(p, 0, OP_TASK, a, b, c);
         if (hx_chance(r, 4)) hx_add_op(p, 0, OP_WAIT, 0, 0, 0);
     }
-    /* trailing flushes */
+    /* trailing flushes (the tiles reserved for nested tasks are only ever flushed by flush_all) */
     if (hx_knob(p, "partial_flush", 0)) {
-        for (int k = 0; k < nt; k++) if (hx_chance(r, 50)) hx_add_op(p, 0, OP_FLUSH, k, 0, 0);
+        for (int k = 0; k < ntm; k++) if (hx_chance(r, 50)) hx_add_op(p, 0, OP_FLUSH, k, 0, 0);
     } else hx_add_op(p, 0, OP_FLUSHALL, 0, 0, 0);
 }
 
@@ -416,6 +505,56 @@ static void *rank_tramp(void *a)
     return hx_rank_mains[ra->rank](a);
 }
 
+/* Root cause of the single-rank shapes of KF-DTD-WAR-RACE, as far as the harness can witness it.
+ * parsec_insert_dtd_task (insert_function.c, branch "have parent, but parent is not alive") compares the tile's
+ * last_user.task with this_task to recognise "the same task uses the tile in several flows".  last_user.task of a tile X
+ * whose last user is a COMPLETED reader q is a dangling pointer: q's task object went back to the mempool of its task
+ * class.  When the next task T that uses X (flow f) is of the same class and is handed q's object, the comparison is
+ * true by accident and DTD drops a reader reference of T's flow g = the flow at which q used X (if that flow is
+ * already bound to a copy, i.e. g < f and the last writer of tile V = T.tile[g] is complete).  The reader count of V's
+ * copy is one too low from then on (T itself is not counted; -1 when all readers are gone): every later writer of V on
+ * this rank starts while one earlier reader is still pending or running.  V need not be a tile q ever used.
+ * Returns 1 if such a (q, T) exists for V on rank rr with T inserted before task `before`:
+ *   T's task object IS q's (addresses seen by the two bodies), same class (same parameter count and modes: the driver
+ *   has one body function per signature), both ran on rr, q used X read-only at position g, T is the next user of X
+ *   in insertion order (no flush of X in between: a flush + wait recreates the tile), T.tile[f] == X with g < f,
+ *   T.tile[g] == V, q's body had ended before T's insertion began, the last writer of V before T had ended before
+ *   T's insertion returned. */
+static int recycled_reader_spoils(int rr, int V, int before, int *out_q, int *out_t)
+{
+    for (int t = 1; t < before && t < SH.ntasks; t++) {
+        dtd_task_desc_t *T = &SH.tasks[t];
+        if (T->is_flush || !OBS[t].count || OBS[t].rank != rr || !TASK_ADDR[t] || !INS_BEGIN[rr][t]) continue;
+        for (int f = 1; f < T->nparams; f++) {
+            int X = T->tile[f], q = -1, g = -1;
+            for (int j = t - 1; j >= 0 && q < 0; j--) {
+                dtd_task_desc_t *e = &SH.tasks[j];
+                if (e->is_flush == 2 || (e->is_flush == 1 && e->tile[0] == X)) break;
+                if (e->is_flush) continue;
+                for (int b = 0; b < e->nparams; b++) if (e->tile[b] == X) { q = j; g = b; }
+            }
+            if (q < 0 || g >= f || T->tile[g] != V) continue;
+            dtd_task_desc_t *Q = &SH.tasks[q];
+            if (Q->nparams != T->nparams || memcmp(Q->mode, T->mode, sizeof(int) * (size_t)Q->nparams)) continue;
+            int ronly = 1;
+            for (int b = 0; b < Q->nparams; b++) if (Q->tile[b] == X && Q->mode[b] != M_IN) ronly = 0;
+            if (!ronly) continue;
+            if (!OBS[q].count || OBS[q].rank != rr || TASK_ADDR[q] != TASK_ADDR[t]) continue;
+            if (!(OBS[q].end && OBS[q].end < INS_BEGIN[rr][t])) continue;
+            int w = -1;
+            for (int j = t - 1; j >= 0 && w < 0; j--) {
+                dtd_task_desc_t *e = &SH.tasks[j];
+                if (e->is_flush) continue;
+                for (int b = 0; b < e->nparams; b++) if (e->tile[b] == V && writes(e->mode[b])) w = j;
+            }
+            if (w >= 0 && !(OBS[w].end && (!INS_END[rr][t] || OBS[w].end < INS_END[rr][t]))) continue;
+            *out_q = q; *out_t = t;
+            return 1;
+        }
+    }
+    return 0;
+}
+
 static void run(const hx_plan_t *p, hx_result_t *res)
 {
     RES = res;
@@ -428,6 +567,9 @@ static void run(const hx_plan_t *p, hx_result_t *res)
     }
     memset(OBS, 0, sizeof(OBS));
     memset(INS_BEGIN, 0, sizeof(INS_BEGIN));
+    memset(INS_END, 0, sizeof(INS_END));
+    memset(TASK_ADDR, 0, sizeof(TASK_ADDR));
+    memset(PREP, 0, sizeof(PREP));
     WAR_R = WAR_W = WAR_T = -1;
     memset(OBS_out, 0, sizeof(OBS_out));
     memset(inflight_w, 0, sizeof(inflight_w));
@@ -437,6 +579,13 @@ static void run(const hx_plan_t *p, hx_result_t *res)
     setenv("PARSEC_MCA_mca_sched", SCHEDS[hx_knob(p, "sched", 0) % NSCHED], 1);
     if (SH.window > 0) setenv_int("PARSEC_MCA_dtd_window_size", SH.window); else unsetenv("PARSEC_MCA_dtd_window_size");
     if (SH.threshold > 0) setenv_int("PARSEC_MCA_dtd_threshold_size", SH.threshold); else unsetenv("PARSEC_MCA_dtd_threshold_size");
+    {
+        long cs = hx_knob(p, "comm_short", -1), st = hx_knob(p, "copy_stall", 0);
+        if (cs >= 0) setenv_int("PARSEC_MCA_runtime_comm_short_limit", cs); else unsetenv("PARSEC_MCA_runtime_comm_short_limit");
+        if (st > 0) setenv_int("VERIF_DTD_COPY_STALL_NS", st); else unsetenv("VERIF_DTD_COPY_STALL_NS");
+        if (SH.nranks > 1 && cs == 0) sim_probe(PR_SHORT_LIMIT_0);
+        if (SH.nranks > 1 && st > 0) sim_probe(PR_COPY_STALL);
+    }
     if (SH.window > 0 && SH.window <= 2) sim_probe(PR_WINDOW_SMALL);
     if (SH.nranks > 1) sim_probe(PR_MULTIRANK);
     for (int i = 0; i < SH.ntasks; i++) if (SH.tasks[i].inserter >= 0) sim_probe(PR_NESTED_INSERT);
@@ -507,10 +656,15 @@ static void run(const hx_plan_t *p, hx_result_t *res)
     if (res->vclass && !strncmp(res->vclass, "war-", 4) && WAR_R >= 0 && WAR_W >= 0) {
         /* shape of the write-after-read failure (known findings are keyed by it):
          *  remote-writer            the writer ran on another rank than the reader
+         *  remote-writer-between    the writer ran on the reader's rank (the tile's owner) right behind a writer of another rank
          *  earlier-reader-completed an earlier reader of the same tile version had already completed when the
          *                           failing reader was inserted (the reader chain of the tile had been closed)
-         *  open-chain               neither: reader and writer were linked behind a still pending predecessor */
+         *  reader-chain-closed-earlier  the reader accounting of the failing tile was spoilt earlier, by the recycling
+         *                           of a completed reader's task object (recycled_reader_spoils() below); any later
+         *                           reader / writer pair of that tile is affected, whatever its own chain looks like
+         *  open-chain               none of these: reader and writer were linked behind a still pending predecessor */
         const char *tag = "open-chain";
+        char why[160] = "";
         int rr = OBS[WAR_R].rank;
         if (OBS[WAR_W].count && OBS[WAR_W].rank != rr) tag = "remote-writer";
         else {
@@ -523,9 +677,26 @@ static void run(const hx_plan_t *p, hx_result_t *res)
                 if (wr) break;                          /* an earlier version: stop */
                 if (OBS[q].end && INS_BEGIN[rr][WAR_R] && OBS[q].end < INS_BEGIN[rr][WAR_R]) { tag = "earlier-reader-completed"; break; }
             }
+            /* cross-rank shape with a LOCAL failing writer: between the failing reader and the failing writer (insertion
+             * order) another rank wrote the tile, and that writer had finished before the failing writer began; reader and
+             * failing writer both ran on the tile's owner.  The remote writer's output is deposited into the owner's tile
+             * memory while the earlier-inserted local reader is still pending (what [remote-writer] is about), and the
+             * next local writer then works on that memory (seed 1000346 of the generator of 2026-09-22, 3 ranks, ap;
+             * the committed harness fails on the same plan) */
+            if (!strcmp(tag, "open-chain") && SH.nranks > 1 && WAR_T % SH.nranks == rr)
+                for (int j = WAR_R + 1; j < WAR_W; j++) {
+                    dtd_task_desc_t *e = &SH.tasks[j];
+                    if (e->is_flush || !OBS[j].end || OBS[j].rank == rr || !(OBS[j].end < OBS[WAR_W].begin)) continue;
+                    for (int b = 0; b < e->nparams; b++) if (e->tile[b] == WAR_T && writes(e->mode[b])) tag = "remote-writer-between";
+                }
+            int rq, rt;
+            if (!strcmp(tag, "open-chain") && recycled_reader_spoils(rr, WAR_T, WAR_W, &rq, &rt)) {
+                tag = "reader-chain-closed-earlier";
+                snprintf(why, sizeof(why), " (task %d was given the task object of task %d, the completed last reader of another tile it uses)", rt, rq);
+            }
         }
         size_t l = strlen(res->detail);
-        snprintf(res->detail + l, sizeof(res->detail) - l, " [%s]", tag);
+        snprintf(res->detail + l, sizeof(res->detail) - l, " [%s]%s", tag, why);
     }
 }
 
@@ -545,10 +716,110 @@ static void annotate(const hx_plan_t *p, char *buf, size_t n)
     snprintf(buf, n, "[sched=%s threads=%d ranks=%d%s]", SCHEDS[hx_knob(p, "sched", 0) % NSCHED], SH.nthreads, SH.nranks,
              plan_has_repeat() ? " plan-has-task-using-one-tile-in-several-parameters" : "");
 }
+/* KF-DTD-AGAIN-LIVELOCK shape: number of writers that are spinning on the write-after-read retry (AGAIN) on rank r,
+ * i.e. tasks expected on r, inserted there and not yet run -- or flush tasks of tiles owned by r whose flush call has
+ * begun there (how far a flush_all got is not visible: all its tiles count) -- whose earlier conflicting WRITERS all
+ * finished (they have been activated) but which write a tile that an earlier-inserted reader-only task, expected on r
+ * and not yet started, still has to read (plan-level count: it cannot tell an activated writer from one whose
+ * activation was lost; describe_abort combines it with the observed retries, spinning_on_again()). */
+static int tile_has_unstarted_reader_before(int i, int k, int r)
+{
+    /* all earlier writers of k finished, and an earlier reader-only access of k (after them) has not started */
+    int pending_reader = 0;
+    for (int j = 0; j < i; j++) {
+        dtd_task_desc_t *e = &SH.tasks[j];
+        if (e->is_flush) continue;
+        int uses = 0, wr = 0;
+        for (int b = 0; b < e->nparams; b++) if (e->tile[b] == k) { uses = 1; if (writes(e->mode[b])) wr = 1; }
+        if (!uses) continue;
+        if (wr) { if (!OBS[j].end) return 0; pending_reader = 0; continue; }
+        if (!OBS[j].count && exp_rank_of(j) == r) pending_reader = 1;
+    }
+    return pending_reader;
+}
+static int war_blocked_writers(int r)
+{
+    int nw = 0;
+    for (int i = 0; i < SH.ntasks; i++) {
+        dtd_task_desc_t *d = &SH.tasks[i];
+        if (d->is_flush == 3) continue;
+        if (d->is_flush) {
+            if (r < 0 || r >= 16 || !INS_BEGIN[r][i]) continue;
+            for (int k = 0; k < SH.ntiles; k++) {
+                if (d->is_flush == 1 && d->tile[0] != k) continue;
+                if (k % SH.nranks == r && tile_has_unstarted_reader_before(i, k, r)) nw++;
+            }
+            continue;
+        }
+        if (OBS[i].count || exp_rank_of(i) != r || !INS_BEGIN[r][i]) continue;
+        int activated = 1, blocked = 0;
+        for (int a = 0; a < d->nparams && activated; a++)
+            for (int j = 0; j < i && activated; j++) {
+                dtd_task_desc_t *e = &SH.tasks[j];
+                if (e->is_flush || OBS[j].end) continue;
+                for (int b = 0; b < e->nparams; b++) if (e->tile[b] == d->tile[a] && writes(e->mode[b])) activated = 0;
+            }
+        if (!activated) continue;
+        for (int a = 0; a < d->nparams; a++) if (writes(d->mode[a]) && tile_has_unstarted_reader_before(i, d->tile[a], r)) blocked = 1;
+        nw += blocked;
+    }
+    return nw;
+}
+/* tasks inserting tasks (single rank): inserter tasks whose body ended but which are still inside parsec_dtd_insert_task
+ * of one of their nested tasks (that insertion began and has not returned), i.e. stuck in the window stop of a nested
+ * insertion.  parsec_execute_and_come_back() only returns when the taskpool's count of unfinished local tasks is
+ * <= dtd_threshold_size, and that count includes the inserting task itself and every inserted task that cannot finish
+ * before the inserter does (*dependents: inserted, unfinished tasks / flush tasks that conflict, directly or through
+ * such tasks, with a stuck inserter inserted before them). */
+static int nested_stuck(int *inserters, int *dependents)
+{
+    unsigned char S[DTD_MAX_TASKS];
+    int M = 0, N = 0;
+    memset(S, 0, sizeof(S));
+    if (SH.nranks != 1) return 0;
+    for (int c = 0; c < SH.ntasks; c++) {
+        dtd_task_desc_t *d = &SH.tasks[c];
+        if (d->is_flush || d->inserter < 0) continue;
+        int i = d->inserter;
+        if (OBS[i].end && INS_BEGIN[0][c] && !INS_END[0][c] && !S[i]) { S[i] = 1; M++; }
+    }
+    if (!M) return 0;
+    for (int j = 0; j < SH.ntasks; j++) {
+        dtd_task_desc_t *d = &SH.tasks[j];
+        if (d->is_flush == 3 || S[j] || !INS_BEGIN[0][j]) continue;
+        if (d->is_flush) {
+            for (int k = 0; k < SH.ntiles; k++) {
+                if (d->is_flush == 1 && d->tile[0] != k) continue;
+                int dep = 0;
+                for (int e = 0; e < j && !dep; e++) if (S[e]) for (int b = 0; b < SH.tasks[e].nparams; b++) if (SH.tasks[e].tile[b] == k) dep = 1;
+                N += dep;
+            }
+            continue;
+        }
+        if (OBS[j].end) continue;
+        int dep = 0;
+        for (int e = 0; e < j && !dep; e++) {
+            if (!S[e]) continue;
+            dtd_task_desc_t *x = &SH.tasks[e];
+            for (int a = 0; a < d->nparams && !dep; a++) for (int b = 0; b < x->nparams; b++)
+                if (d->tile[a] == x->tile[b] && (writes(d->mode[a]) || writes(x->mode[b]))) { dep = 1; break; }
+        }
+        if (dep) { S[j] = 2; N++; }
+    }
+    *inserters = M; *dependents = N;
+    return 1;
+}
 /* characterise a hang from the harness's own bookkeeping (world stopped) */
 static void describe_abort(char *buf, size_t n)
 {
     int done = 0, total = 0, starved = -1, blocked = 0;
+    char ntag[160] = "";
+    int nested_explains = 0, nm = 0, nn = 0;
+    if (nested_stuck(&nm, &nn)) {
+        int T = SH.threshold > 0 ? SH.threshold : 4000;
+        nested_explains = nm + nn > T;
+        snprintf(ntag, sizeof(ntag), " [%s inserters=%d dependents=%d threshold=%d]", nested_explains ? "nested-insertion-waits-for-own-dependents" : "stuck-in-nested-insertion", nm, nn, T);
+    }
     for (int i = 0; i < SH.ntasks; i++) {
         dtd_task_desc_t *d = &SH.tasks[i];
         if (d->is_flush) continue;
@@ -556,6 +827,7 @@ static void describe_abort(char *buf, size_t n)
         if (OBS[i].end) { done++; continue; }
         if (OBS[i].count) continue;     /* running */
         int ready = 1;
+        { int er = exp_rank_of(i); if (er < 0) er = 0; if (er < 16 && !INS_BEGIN[er][i]) ready = 0; }   /* not even inserted where it runs */
         for (int j = 0; j < i && ready; j++) {
             dtd_task_desc_t *e = &SH.tasks[j];
             if (e->is_flush || OBS[j].end) continue;
@@ -565,10 +837,20 @@ static void describe_abort(char *buf, size_t n)
         if (d->inserter >= 0 && !OBS[d->inserter].count) ready = 0;
         if (ready && starved < 0) starved = i; else if (!ready) blocked++;
     }
-    if (starved >= 0)
-        snprintf(buf, n, "%d of %d tasks done; task %d is data-ready (every earlier conflicting task finished) but never ran: ready-but-starved", done, total, starved);
-    else
-        snprintf(buf, n, "%d of %d tasks done; no data-ready task is waiting (%d wait for unfinished predecessors)", done, total, blocked);
+    if (starved >= 0) {
+        int r = exp_rank_of(starved);
+        if (r < 0) r = 0;
+        int nw = war_blocked_writers(r);
+        char shape[96] = "";
+        /* claimed only when the retry is OBSERVED (tasks of this rank that went through prepare_input again and again and
+         * never executed) and the plan explains it (writers behind not yet started readers).  waiters >= threads makes
+         * the livelock certain, but it also persists with fewer waiters than threads (plan of seed 1000446: 3 waiters,
+         * 4 threads, ip: 1 of 6 runs of the REAL runtime did not finish), so the thread count is only printed. */
+        int sp = spinning_on_again(r);
+        if (sp >= 1 && nw >= 1 && !nested_explains) snprintf(shape, sizeof(shape), " [again-livelock-shape spinning=%d waiters=%d threads=%d]", sp, nw, SH.nthreads);
+        snprintf(buf, n, "%d of %d tasks done; task %d is data-ready (every earlier conflicting task finished) but never ran: ready-but-starved%s%s", done, total, starved, shape, ntag);
+    } else
+        snprintf(buf, n, "%d of %d tasks done; no data-ready task is waiting (%d wait for unfinished predecessors or are not inserted yet)%s", done, total, blocked, ntag);
 }
 
 static void tune(const hx_plan_t *p, sim_params_t *sp)
